@@ -36,10 +36,13 @@ class Checker:
             return None
         except Raised as e:
             st = UNK if e.exc_name in MODEL_GAP_EXC else BAD
+            if st == BAD and not self._own_raise(e):
+                st = UNK
             self.run.ob(rule, where, construct, what, st,
                         found=f"raises {e} for every valid symbolic input",
                         expected="returns a result", nontrivial=True,
-                        note=None if st == BAD else "exception class typical of a modelling gap: reported as inconclusive")
+                        note=None if st == BAD else "raised outside the functions this property is anchored in, or an exception class "
+                                                    "typical of a modelling gap: reported as inconclusive")
             return None
         except (RecursionError,) as e:
             self.run.ob(rule, where, construct, what, UNK, note=f"analysis did not terminate: {e}")
@@ -58,6 +61,17 @@ class Checker:
             self.run.analysed["call_sites"] += ev.calls_inlined
             self.run.analysed["api_entries"] |= set(getattr(ev, "api_used", set()))
         return v
+
+    def _own_raise(self, e):
+        """A raise is attributed to the property only if it happens in one of the functions the property's rules are
+        anchored in; a raise elsewhere (a helper the scenario merely passes through) makes the obligation inconclusive."""
+        from .selftest import ANCHORS
+        origin = getattr(e, "origin", None)
+        if origin is None:
+            return False
+        names = {q for _, q in ANCHORS.get(self.run.pid, [])}
+        short = {q.split(".")[-1] for q in names}
+        return origin in names or origin in short or origin.split(".")[-1] in short
 
     # ---------------------------------------------------------------- compare
     def eq(self, rule, where, construct, what, found, expected, constraints=None, assume=None, note=None):
